@@ -166,7 +166,7 @@ Lemma alternates_ext_caveats :
      (map XE [EOpen; EUp] ++ [XRestore] ++ map XE [EDown])) = false.
 Proof. vm_compute. split; reflexivity. Qed.
 
-(* Restore as it stands (restart counter 0): the first renegotiation of a restored session gets no
+(* Restore before fe05ccf (restart counter 0): the first renegotiation of a restored session gets no
    retransmission (before fe05ccf); with the counter initialised (HEAD) it gets
    Max-Configure *)
 Lemma restore_budget_refuted :
